@@ -32,6 +32,9 @@ type Params struct {
 	// NoOrdered leaves every ordered list empty (ygot expects ordered lists to be
 	// unmarshalled as a whole, so merge payloads must not carry entries that may exist).
 	NoOrdered bool
+	// NoPointerKeyed leaves lists keyed by wrapper unions (pointer keys) empty: merging a
+	// JSON list into such a map cannot find existing entries by key value.
+	NoPointerKeyed bool
 }
 
 // DefaultParams is a mid-size tree.
@@ -560,6 +563,9 @@ func (g *G) fillField(s reflect.Value, i int, sch *yang.Entry, depth int, force 
 		if depth >= g.P.MaxDepth || (!force && !g.chance(g.P.PList)) {
 			return
 		}
+		if g.P.NoPointerKeyed && pointerKeyed(sf.Type.Key()) {
+			return
+		}
 		n := 1 + g.R.Intn(g.P.MaxList)
 		m := reflect.MakeMap(sf.Type)
 		for j := 0; j < n; j++ {
@@ -951,4 +957,20 @@ func MirrorKeys(entry reflect.Value, names []string) {
 			}
 		}
 	}
+}
+
+// pointerKeyed reports whether a map key type is (or contains) a union interface, which
+// for packages generated with wrapper unions holds a pointer.
+func pointerKeyed(kt reflect.Type) bool {
+	if kt.Kind() == reflect.Interface {
+		return true
+	}
+	if kt.Kind() == reflect.Struct {
+		for i := 0; i < kt.NumField(); i++ {
+			if kt.Field(i).Type.Kind() == reflect.Interface {
+				return true
+			}
+		}
+	}
+	return false
 }
